@@ -162,3 +162,45 @@ func c16Seq(nops int) {
 func H_C16_Seq3() { c16Seq(3) }
 func H_C16_Seq4() { c16Seq(4) }
 func H_C16_Seq5() { c16Seq(5) }
+
+// H_C16_Fixed: closed configurations with values the symbolic queries reach only at larger bounds (blanks at either end, a
+// blank at the truncation boundary, separators of the TXT / QR / category syntax inside values, 32 and 33 bytes). Everything is
+// concrete here, the engine merely executes the real code; the same harness is what the native replay runs.
+func H_C16_Fixed() {
+	long := "Example Home Energy Systems and Co KG" // byte 32 is a blank: the truncated value ends in a blank
+	vals := []string{" padded", "padded ", " both ", "a=b", "k:v", "x,y", "tab\tend\t", "0123456789012345678901234567890X", long, "Ünïcödé Wert"}
+	which := zzvrt.Choice("which", cfgNone)
+	k := zzvrt.Choice("value", len(vals))
+	cfg := baseCfg()
+	v := vals[k]
+	switch which {
+	case cfgSKI:
+		zzvrt.Assume(k < 8) // SKI / identifier are not truncated; keep them short
+		cfg.ski = v
+	case cfgID:
+		zzvrt.Assume(k < 8)
+		cfg.id = v
+	case cfgBrand:
+		cfg.brand = v
+	case cfgModel:
+		cfg.model = v
+	case cfgType:
+		cfg.typ = v
+	case cfgSerial:
+		cfg.serial = v
+	}
+	p := &vProvider{}
+	m := cfg.manager(p)
+	_ = m.AnnounceMdnsEntry()
+	b := NewMDNS("the-browsers-own-ski", "", "", "", "", nil, "other", "svc2", 1, nil, MdnsProviderSelectionAll)
+	b.processMdnsEntry(parseTxt(p.txt), "svc", "host", nil, p.port, false)
+	e, ok := b.entries[cfg.ski]
+	zzvrt.Assert(ok, "C16.fixed-entry-missing")
+	if ok {
+		zzvrt.Assert(e.Ski == cfg.ski && e.Identifier == cfg.id, "C16.fixed-ski-or-identifier-differs")
+		zzvrt.Assert(e.Brand == refShorten(cfg.brand, 32) && e.Model == refShorten(cfg.model, 32) && e.Type == refShorten(cfg.typ, 32) && e.Serial == refShorten(cfg.serial, 32),
+			"C16.fixed-descriptive-value-differs")
+	}
+	zzvrt.Assert(m.QRCodeText() == refQR(cfg), "C16.fixed-qr-text-differs-from-reference")
+	zzvrt.Cover("c16.end")
+}
